@@ -23,6 +23,11 @@ fn main() {
         let a = syscall(102);
         let b = syscall(102);
         println!("getuid a_is_real={} b={b}", a != 4242);
+        // number-agnostic injection (nr = -1): the next system call of this thread, whatever its number
+        syscall(M, 4i64, 0i64, -1i64, 0i64, 777i64, 1i64);
+        let g1 = syscall(186); // gettid: forced
+        let g2 = syscall(186); // real again
+        println!("anynr first={g1} second_is_real={}", g2 != 777 && g2 > 0);
         let f = std::fs::File::open("/proc/self/maps").unwrap();
         syscall(M, 5i64, 11i64, 0i64, 0i64, 0i64, 0i64); // SNAPFD tag 11
         drop(f);
